@@ -86,8 +86,8 @@ func (r *schedRun) gate(point string, entry interface{}) {
 	if t == nil {
 		return // not one of ours (controller calls)
 	}
-	if entry != nil {
-		t.entry = entry
+	if entry != nil && t.entry == nil {
+		t.entry = entry // written once, at the thread's first stop, while the controller awaits it
 	}
 	t.report <- point
 	<-t.release
@@ -155,15 +155,49 @@ func suiteSched(r *rng, n int) {
 		}
 	}
 	defer func() { cache.VerifHook = nil }()
+	// directed schedules first (minimised past failures and hand-written corner cases)
+	for i, sc := range directedSchedules {
+		runSchedule(r.fork(uint64(900000+i)), 900000+i, sc)
+		flush()
+	}
 	for seq := 0; seq < n; seq++ {
-		runSchedule(r.fork(uint64(seq)), seq)
+		runSchedule(r.fork(uint64(seq)), seq, nil)
 		flush()
 	}
 }
 
-func runSchedule(cr *rng, seq int) {
+// directed schedules: "event:thread[:args]"; threads are numbered in arrival order
+var directedSchedules = [][]string{
+	// D1: waiter woken, lifetime passes, third request refetches, waiter resumes
+	{"store:0", "arrive:0", "arrive:0", "get:0", "get:1", "park:1", "upEnd:0:cacheable:1", "complete:0", "saved:0:1", "tick:2", "arrive:0", "get:2", "resume:1", "age:1"},
+	// completer blocked on a waiter that registered but has not parked
+	{"store:0", "arrive:0", "arrive:0", "arrive:0", "get:0", "get:1", "get:2", "park:2", "upEnd:0:nostore:1", "complete:0", "park:1", "saved:0:1", "resume:1", "resume:2"},
+	// D10: lookup in the last valid second, tick, Age
+	{"store:0", "arrive:0", "get:0", "upEnd:0:cacheable:1", "complete:0", "saved:0:1", "tick:1", "arrive:0", "get:1", "tick:1", "age:1"},
+	// purge racing an in-flight fetch with waiters; next request refetches
+	{"store:1", "arrive:0", "arrive:0", "get:0", "get:1", "purge:0:1", "arrive:0", "get:2", "park:1", "upEnd:0:cacheable:60", "complete:0", "saved:0:1", "resume:1", "age:1", "upEnd:2:cacheable:60", "complete:2", "saved:2:1"},
+	// hit-for-pass lapse: single prober, others wait
+	{"store:0", "hfp:2s", "arrive:0", "get:0", "upEnd:0:error:1", "complete:0", "saved:0:1", "tick:1", "arrive:0", "get:1", "tick:2", "arrive:0", "arrive:0", "get:2", "get:3", "park:3", "upEnd:1:nostore:1", "upEnd:2:cacheable:3", "complete:2", "saved:2:1", "resume:3", "age:3"},
+	// restart: served from the store with Age continuing, then past the original expiry
+	{"store:1", "arrive:0", "get:0:honest", "upEnd:0:cacheable:3", "complete:0", "saved:0:1", "crash", "tick:2", "arrive:0", "get:1:honest", "age:1", "crash", "tick:2", "arrive:0", "get:2:honest", "upEnd:2:nostore:1", "complete:2", "saved:2:1"},
+	// bad records
+	{"store:1", "arrive:0", "get:0:honest", "upEnd:0:cacheable:60", "complete:0", "saved:0:1", "crash",
+		"arrive:0", "get:1:mutate", "upEnd:1:error:1", "complete:1", "saved:1:0", "crash",
+		"arrive:0", "get:2:error", "upEnd:2:error:1", "complete:2", "saved:2:0", "crash",
+		"arrive:0", "get:3:mutate", "upEnd:3:error:1", "complete:3", "saved:3:0", "crash", "arrive:0", "get:4:honest"},
+}
+
+func runSchedule(cr *rng, seq int, script []string) {
 	withStore := cr.chance(60)
 	hfp := []string{"300s", "2s", "0s"}[cr.intn(3)]
+	for len(script) > 0 && (strings.HasPrefix(script[0], "store:") || strings.HasPrefix(script[0], "hfp:")) {
+		if strings.HasPrefix(script[0], "store:") {
+			withStore = script[0] == "store:1"
+		} else {
+			hfp = strings.TrimPrefix(script[0], "hfp:")
+		}
+		script = script[1:]
+	}
 	now := int64(1_700_000_000)
 	setClock(now)
 	run := &schedRun{byGoid: map[int64]*schedThread{}, waiters: map[interface{}][]*schedThread{}, draining: map[interface{}]*schedThread{},
@@ -239,6 +273,9 @@ func runSchedule(cr *rng, seq int) {
 	nkeys := 1 + cr.intn(2)
 	maxThreads := 2 + cr.intn(5)
 	steps := 12 + cr.intn(40)
+	if script != nil {
+		steps, maxThreads, nkeys = len(script), 100, 2
+	}
 	idOf := func(t *schedThread) string { return itoa(int64(t.id)) }
 	posLine := func(t *schedThread) string {
 		if t.pos == "finished" {
@@ -318,11 +355,35 @@ func runSchedule(cr *rng, seq int) {
 			acts = append(acts, action{"crash", nil})
 		}
 		a := acts[cr.intn(len(acts))]
+		// scripted step: override the random choice and its parameters
+		var sp []string
+		if script != nil {
+			sp = strings.Split(script[step], ":")
+			a = action{name: sp[0]}
+			if sp[0] != "arrive" && sp[0] != "tick" && sp[0] != "purge" && sp[0] != "crash" {
+				ti, _ := strconv.Atoi(sp[1])
+				if ti >= len(run.threads) {
+					emit("sched", "script-error", script[step])
+					break
+				}
+				a.t = run.threads[ti]
+			}
+		}
+		arg := func(i int, def string) string {
+			if sp != nil && len(sp) > i {
+				return sp[i]
+			}
+			return def
+		}
 		switch a.name {
 		case "arrive":
 			t := &schedThread{id: len(run.threads), key: cr.intn(nkeys), method: "GET", report: make(chan string, 1), release: make(chan struct{}), pos: "running"}
 			if cr.chance(8) {
 				t.method = "POST"
+			}
+			if sp != nil {
+				t.key, _ = strconv.Atoi(arg(1, "0"))
+				t.method = "GET"
 			}
 			run.threads = append(run.threads, t)
 			started := make(chan struct{})
@@ -349,7 +410,7 @@ func runSchedule(cr *rng, seq int) {
 			emit("sched", "arrive", idOf(t), itoa(int64(t.key)), hx(t.method), "=>", posLine(t), itoa(int64(run.eidx(t.entry))))
 		case "get":
 			t := a.t
-			run.loadPlan = []string{"honest", "honest", "honest", "error", "mutate", "mutate"}[cr.intn(6)]
+			run.loadPlan = arg(2, []string{"honest", "honest", "honest", "error", "mutate", "mutate"}[cr.intn(6)])
 			t.loadOut = "none"
 			t.release <- struct{}{}
 			run.await(t)
@@ -375,6 +436,10 @@ func runSchedule(cr *rng, seq int) {
 			run.nextRid++
 			kinds := []string{"cacheable", "cacheable", "cacheable", "nostore", "error", "panic"}
 			t.answer = upAnswer{kind: kinds[cr.intn(len(kinds))], ttl: []int{1, 2, 3, 60}[cr.intn(4)], rid: run.nextRid}
+			if sp != nil {
+				t.answer.kind = arg(2, "cacheable")
+				t.answer.ttl, _ = strconv.Atoi(arg(3, "60"))
+			}
 			t.release <- struct{}{}
 			run.await(t)
 			emit("sched", "upEnd", idOf(t), hx(t.answer.kind), itoa(int64(t.answer.ttl)), itoa(int64(t.answer.rid)), "=>", posLine(t))
@@ -395,6 +460,9 @@ func runSchedule(cr *rng, seq int) {
 		case "saved":
 			t := a.t
 			run.savePlan = cr.chance(75)
+			if sp != nil {
+				run.savePlan = arg(2, "1") == "1"
+			}
 			t.release <- struct{}{}
 			finish(t)
 			delete(run.draining, t.entry)
@@ -410,12 +478,20 @@ func runSchedule(cr *rng, seq int) {
 			if cr.chance(10) {
 				d = 300
 			}
+			if sp != nil {
+				dd, _ := strconv.Atoi(arg(1, "1"))
+				d = int64(dd)
+			}
 			now += d
 			setClock(now)
 			emit("sched", "tick", itoa(d))
 		case "purge":
 			k := cr.intn(nkeys)
 			run.delPlan = cr.chance(60)
+			if sp != nil {
+				k, _ = strconv.Atoi(arg(1, "0"))
+				run.delPlan = arg(2, "1") == "1"
+			}
 			cache.RemoveHTTPCache("c1", []byte("GET s.test "+schedKeyURI(k)))
 			emit("sched", "purge", itoa(int64(k)), b2s(run.delPlan))
 		case "crash":
